@@ -8,10 +8,10 @@ namespace Occa.Expr
 open Occa.Gen
 
 /-! ### the repaired code is what is modelled (these fail to check on an unrepaired tree) -/
-@[simp] theorem flag_ternary : ternaryNestsRight = true := by decide
+@[simp] theorem flag_ternary : ternaryMode = 2 := by decide
 @[simp] theorem flag_castEnd : castEndIsPrefix = true := by decide
 @[simp] theorem flag_pairEnd : pairEndEndsOperand = true := by decide
-@[simp] theorem flag_operand : operandThenUnaryIsBinary = true := by decide
+@[simp] theorem flag_operand : operandThenBinary = true := by decide
 
 theorem mem_all (o : Op) : o ∈ Op.all := by cases o <;> decide
 
